@@ -24,7 +24,9 @@ convention are lower by 1 or more (LOG_1_1 is ln 1.1 rounded UP in the 9th digit
 at which the two conventions give different L values are listed in the generated comment.  The
 table that is emitted is 'ref'.  With --check-floats the double-precision formulas
 (C reference style and Python log(l,b) style) are evaluated for every len < 2^24 and compared
-with the table.
+with the table (2026-09: no mismatch: C-style doubles == 'ref' table, Python log(l,b) doubles ==
+'true' table, for every len < 2^24; so a port using log(l,1.1) differs from the reference at
+len = 795081, 962048, 6472178, 8614469, 11465858, 12612444, 15261057, ...).
 
 Usage: gen_tlsh_consts.py [--check-floats]      prints the TLA+ definition of TlshLThresh
 """
